@@ -549,6 +549,20 @@ theorem applyL_inv {s : St} (hput : ∀ s l, Inv s → Inv (put s l)) (h : Inv s
     · exact h
     · exact filtersChanged_inv (hput _ _ h) env
   | clear => exact filtersChanged_inv (hput _ _ h) env
+  | insert i v =>
+    simp only [applyL, insertL]; split
+    · exact h
+    · exact filtersChanged_inv (hput _ _ h) env
+  | pop i =>
+    simp only [applyL, popL]; split
+    · exact h
+    · exact filtersChanged_inv (hput _ _ h) env
+  | remove v =>
+    simp only [applyL, removeL]; split
+    · exact filtersChanged_inv (hput _ _ h) env
+    · exact h
+  | delSlice a b => exact filtersChanged_inv (hput _ _ h) env
+  | reverse => exact setSliceL_inv env valid get put hput h 0 none _
   | assignSelf => exact setSliceL_inv env valid get put hput h 0 none _
   | iaddAttr vs =>
     rw [iaddAttr_eq]; split
@@ -1097,6 +1111,20 @@ theorem applyL_pathEx {s : St} (hput : ∀ s l, PathEx env s → PathEx env (put
     · exact h
     · exact filtersChanged_pathEx (hput _ _ h)
   | clear => exact filtersChanged_pathEx (hput _ _ h)
+  | insert i v =>
+    simp only [applyL, insertL]; split
+    · exact h
+    · exact filtersChanged_pathEx (hput _ _ h)
+  | pop i =>
+    simp only [applyL, popL]; split
+    · exact h
+    · exact filtersChanged_pathEx (hput _ _ h)
+  | remove v =>
+    simp only [applyL, removeL]; split
+    · exact filtersChanged_pathEx (hput _ _ h)
+    · exact h
+  | delSlice a b => exact filtersChanged_pathEx (hput _ _ h)
+  | reverse => exact setSliceL_pathEx env valid get put hput h 0 none _
   | assignSelf => exact setSliceL_pathEx env valid get put hput h 0 none _
   | iaddAttr vs =>
     rw [iaddAttr_eq]; split
@@ -1297,6 +1325,26 @@ theorem applyL_same {s : St} (hp : PutOk env put) (h : Inv s) (hex : PathEx env 
     · rename_i h1; rw [if_neg h1] at hg
       exact (none_some (put_none env put hp h hex _) hg).elim
   | clear => exact (none_some (put_none env put hp h hex _) hg).elim
+  | insert i v =>
+    simp only [applyL, insertL] at hg ⊢; split
+    · exact Same.rfl' s
+    · rename_i h1; rw [if_neg h1] at hg
+      exact (none_some (put_none env put hp h hex _) hg).elim
+  | pop i =>
+    simp only [applyL, popL] at hg ⊢; split
+    · exact Same.rfl' s
+    · rename_i j hj; rw [hj] at hg
+      exact (none_some (put_none env put hp h hex _) hg).elim
+  | remove v =>
+    simp only [applyL, removeL] at hg ⊢; split
+    · rename_i h1; rw [if_pos h1] at hg
+      exact (none_some (put_none env put hp h hex _) hg).elim
+    · exact Same.rfl' s
+  | delSlice a b => exact (none_some (put_none env put hp h hex _) hg).elim
+  | reverse =>
+    rcases setSliceL_cases env valid get put hp h hex 0 none (get s).reverse with e | e
+    · simp only [applyL, e]; exact Same.rfl' s
+    · exact (none_some e hg).elim
   | assignSelf =>
     rcases setSliceL_cases env valid get put hp h hex 0 none (get s) with e | e
     · simp only [applyL, e]; exact Same.rfl' s
@@ -1427,6 +1475,17 @@ omit [DecidableEq α] in
 /-- `lst[:] = lst` on the plain list is the identity -/
 theorem spliced_self (l : List α) : ML.spliced l 0 none l = l := by
   simp [ML.spliced]
+
+omit [DecidableEq α] in
+/-- `lst[:] = vs` on the plain list replaces everything -/
+theorem spliced_all (l vs : List α) : ML.spliced l 0 none vs = vs := by
+  simp [ML.spliced]
+
+omit [DecidableEq α] in
+theorem nodup_reverse {l : List α} (h : l.Nodup) : l.reverse.Nodup := by
+  unfold List.Nodup at h ⊢
+  rw [List.pairwise_reverse]
+  exact h.imp (fun hab => fun e => hab e.symm)
 
 omit [DecidableEq α] in
 theorem mem_spliced {l vs : List α} {a : Nat} {b : Option Nat} {y : α}
@@ -1560,6 +1619,43 @@ variable {α : Type} [DecidableEq α]
 variable (env : Env) (valid : α → Bool) (get : St → List α) (put : St → List α → St)
 
 omit [DecidableEq α] in
+theorem lok_sublist {l l' : List α} (h : LOk valid l) (hs : l'.Sublist l) : LOk valid l' := by
+  refine ⟨List.Nodup.sublist hs h.1, ?_⟩
+  rw [List.all_eq_true]
+  intro y hy
+  exact (List.all_eq_true.1 h.2) y (hs.subset hy)
+
+omit [DecidableEq α] in
+/-- `del items[a:b]` only removes items -/
+theorem cut_sublist (l : List α) (a : Nat) (b : Option Nat) : (ML.cut l a b).Sublist l := by
+  unfold ML.cut
+  have h := List.Sublist.append (List.Sublist.refl (l.take a))
+    (List.drop_sublist_drop_left l (Nat.le_max_left a (b.getD l.length)))
+  rwa [List.take_append_drop] at h
+
+omit [DecidableEq α] in
+/-- inserting an item that is not there, anywhere -/
+theorem lok_insert {l : List α} {v : α} (h : LOk valid l) (hv : valid v = true) (hn : v ∉ l) (p : Nat) :
+    LOk valid (l.take p ++ v :: l.drop p) := by
+  have hnd := h.1
+  rw [← List.take_append_drop p l, List.nodup_append] at hnd
+  obtain ⟨h1, h2, h3⟩ := hnd
+  refine ⟨?_, ?_⟩
+  · rw [List.nodup_append]
+    refine ⟨h1, List.nodup_cons.2 ⟨fun hm => hn (List.mem_of_mem_drop hm), h2⟩, ?_⟩
+    intro a ha b hb
+    rcases List.mem_cons.1 hb with e | hb
+    · subst e; intro e; subst e; exact hn (List.mem_of_mem_take ha)
+    · exact h3 a ha b hb
+  · rw [List.all_eq_true]
+    intro y hy
+    rcases List.mem_append.1 hy with hy | hy
+    · exact (List.all_eq_true.1 h.2) y (List.mem_of_mem_take hy)
+    · rcases List.mem_cons.1 hy with e | hy
+      · subst e; exact hv
+      · exact (List.all_eq_true.1 h.2) y (List.mem_of_mem_drop hy)
+
+omit [DecidableEq α] in
 theorem get_changed (hl : LensOk get put) (s : St) (l : List α) :
     get (filtersChanged env (put s l)).1 = l := by
   rw [hl.get_filt _ _ (filtersChanged_filt env (put s l)), hl.get_put]
@@ -1647,6 +1743,32 @@ theorem applyL_lok {s : St} (hl : LensOk get put) (h : LOk valid (get s)) (o : L
     simp only [applyL]
     rw [get_changed env get put hl]
     exact ⟨List.nodup_nil, rfl⟩
+  | insert i v =>
+    simp only [applyL, insertL]; split
+    · exact h
+    · rename_i hv
+      have hv' : valid v = true := by simpa using hv
+      rw [get_changed env get put hl]
+      split
+      · exact h
+      · rename_i hc
+        have hn : v ∉ get s := by simpa using hc
+        exact lok_insert valid h hv' hn _
+  | pop i =>
+    simp only [applyL, popL]; split
+    · exact h
+    · rw [get_changed env get put hl]
+      exact lok_sublist valid h (List.eraseIdx_sublist _ _)
+  | remove v =>
+    simp only [applyL, removeL]; split
+    · rw [get_changed env get put hl]
+      exact lok_sublist valid h List.erase_sublist
+    · exact h
+  | delSlice a b =>
+    simp only [applyL]
+    rw [get_changed env get put hl]
+    exact lok_sublist valid h (cut_sublist _ _ _)
+  | reverse => exact setSliceL_lok env valid get put hl h 0 none _
   | assignSelf => exact setSliceL_lok env valid get put hl h 0 none _
   | iaddAttr vs =>
     rw [iaddAttr_eq]; split
@@ -1691,6 +1813,20 @@ theorem applyL_frame {β : Type} (get' : St → β) (h1 : ∀ s l, get' (put s l
     · rfl
     · exact fc _ _
   | clear => exact fc _ _
+  | insert i v =>
+    simp only [applyL, insertL]; split
+    · rfl
+    · exact fc _ _
+  | pop i =>
+    simp only [applyL, popL]; split
+    · rfl
+    · exact fc _ _
+  | remove v =>
+    simp only [applyL, removeL]; split
+    · exact fc _ _
+    · rfl
+  | delSlice a b => exact fc _ _
+  | reverse => exact sl _ _ _ _
   | assignSelf => exact sl _ _ _ _
   | iaddAttr vs =>
     rw [iaddAttr_eq]; split
